@@ -228,6 +228,24 @@ func (x *run) step(op *Op) {
 		}
 	}
 
+	// C04: a conversion attempt that fails half-way (one write fault, rolled
+	// back) precedes the real one: the retry must still convert
+	if cfg.C04 && op.Kind == "convert" && w.R.Intn(3) != 0 {
+		w.DB.FailAt = 1 + w.R.Intn(12)
+		ferr := w.Update(op.Run)
+		fired := w.DB.Fired
+		w.DB.FailAt = 0
+		if fired {
+			x.st["c04-conversions-retried-after-a-failed-attempt"]++
+			w.Logf("%s FAULT (%s %s) -> %s", op.Name, w.DB.LastFailed.Op, w.DB.LastFailed.Path, okOr(ferr))
+		} else if ferr == nil {
+			// no write failed: this WAS the conversion
+			op.Post()
+			w.Logf("%s -> ok", op.Name)
+			return
+		}
+	}
+
 	var err error
 	var wipe *Diff
 	switch {
